@@ -41,65 +41,118 @@ def meta_lines(rng, p_meta, allow_false=True):
 
 
 def gen(rng, knobs=None):
-    """abstract project: dict with units, files and the intended relation"""
-    k = dict(p_meta=0.15, nmods=None, big=False)
+    """abstract project: dict with units, files and the module USE dag.
+    strict (default): every reference in the generated text has one unambiguous meaning under
+    Fortran's scoping rules (own module, public entities of directly used modules, host association,
+    otherwise an external name), so that [declared] can state the relation the source declares."""
+    k = dict(p_meta=0.15, nmods=None, big=False, strict=True)
     k.update(knobs or {})
+    strict = k["strict"]
     nm = k["nmods"] or rng.choice([1, 2, 3, 3, 4, 5, 6] if not k["big"] else [6, 8, 10])
     shape = rng.choice(["chain", "diamond", "star", "split", "random", "random"])
     muse = dag(rng, nm, shape)
-    mods = []
-    tcount = pcount = 0
-    alltypes, allprocs = [], []          # (name, module index)
+    direct = {i: {j for (a, j) in muse if a == i} for i in range(nm)}
+    closure = {}
     for i in range(nm):
-        m = dict(kind="module", name=f"m{i}", uses=sorted(f"m{j}" for (a, j) in muse if a == i), types=[], procs=[],
-                 generics=[], mpis=[], extifs=[], private=rng.random() < 0.25, public=[],
+        seen, todo = set(), [i]
+        while todo:
+            x = todo.pop()
+            for y in direct[x]:
+                if y not in seen:
+                    seen.add(y)
+                    todo.append(y)
+        closure[i] = seen
+    mods = []
+    cnt = dict(t=0, p=0)
+    alltypes, allprocs = [], []          # (name, module index, public)
+
+    def new_type(i, m, extends=None, comps=(), p_meta=None):
+        t = dict(name=f"t{cnt['t']}", extends=extends, comps=list(comps), bound=[], generics=[],
+                 public=(not m["private"]) or rng.random() < 0.65,
+                 meta=meta_lines(rng, k["p_meta"] if p_meta is None else p_meta))
+        cnt["t"] += 1
+        m["types"].append(t)
+        alltypes.append((t["name"], i, t["public"]))
+        return t
+
+    for i in range(nm):
+        m = dict(kind="module", name=f"m{i}", uses=sorted(f"m{j}" for j in direct[i]), types=[], procs=[],
+                 generics=[], mpis=[], extifs=[], private=rng.random() < 0.3, public=[],
                  meta=meta_lines(rng, k["p_meta"]), ext_uses=[])
         if rng.random() < 0.25:
             m["ext_uses"].append(rng.choice(["extlib", "iso_fortran_env", "iso_c_binding", "mpi"]))
-        visible_mods = {i} | {j for (a, j) in muse if a == i}
-        # types
+
+        def type_cands():
+            return [n for n, mi, pub in alltypes if mi == i or (mi in direct[i] and (pub or not strict))]
+        # an extension tower: vec / vec2 are component types, c0 <- c1 <- c2 <- c3 extend each other, the
+        # root has a public and a private derived-type component, a holder is composed of extended types
+        if rng.random() < 0.45:
+            pm = 0.35
+            vec = new_type(i, m, p_meta=pm)
+            vec2 = new_type(i, m, p_meta=pm)
+            if rng.random() < 0.5:
+                vec["comps"].append(("type", vec2["name"], "inner", rng.random() < 0.3))
+            c = new_type(i, m, comps=[("type", vec["name"], "v", False), ("class", vec2["name"], "w", True)],
+                         p_meta=pm)
+            if rng.random() < 0.4:
+                c["comps"].append(("integer", None, "n", False))
+            if rng.random() < 0.4:
+                c["comps"].append(("type", vec["name"], "v2", False))
+            chain = [c]
+            for d in range(rng.choice([3, 3, 4])):
+                comps = []
+                r = rng.random()
+                if r < 0.3:
+                    comps.append(("type", vec2["name"], f"u{d}", rng.random() < 0.5))
+                elif r < 0.45:
+                    comps.append(("class", chain[0]["name"], f"up{d}", False))
+                c = new_type(i, m, extends=chain[-1]["name"], comps=comps, p_meta=pm)
+                chain.append(c)
+            new_type(i, m, comps=[("type", chain[2]["name"], "h", False), ("class", chain[-1]["name"], "hp", True)],
+                     p_meta=pm)
         for _ in range(rng.choice([0, 0, 1, 2, 3])):
-            t = dict(name=f"t{tcount}", extends=None, comps=[], bound=[], generics=[], meta=meta_lines(rng, k["p_meta"]))
-            tcount += 1
-            cands = [n for n, mi in alltypes if mi in visible_mods]
+            cands = type_cands()
+            ext = None
             if cands and rng.random() < 0.5:
-                t["extends"] = rng.choice(cands)
+                ext = rng.choice(cands)
             elif rng.random() < 0.08:
-                t["extends"] = "ext_base_t"
+                ext = "ext_base_t"
+            t = new_type(i, m, extends=ext)
             for c in range(rng.choice([0, 0, 1, 2, 3])):
                 r = rng.random()
+                priv = rng.random() < 0.3
                 if r < 0.15:
-                    t["comps"].append(("integer", None, f"c{c}"))
+                    t["comps"].append(("integer", None, f"c{c}", priv))
                 elif r < 0.3:
-                    t["comps"].append(("type", "ext_t", f"c{c}"))
+                    t["comps"].append(("type", "ext_t", f"c{c}", priv))
                 elif r < 0.45:
-                    t["comps"].append((rng.choice(["type", "class"]), t["name"], f"c{c}"))     # self cycle
+                    t["comps"].append((rng.choice(["type", "class"]), t["name"], f"c{c}", priv))     # self cycle
                 elif cands:
-                    t["comps"].append((rng.choice(["type", "class"]), rng.choice(cands), f"c{c}"))
-            m["types"].append(t)
-            alltypes.append((t["name"], i))
+                    t["comps"].append((rng.choice(["type", "class"]), rng.choice(cands), f"c{c}", priv))
         # mutual composition cycle inside one module
         if len(m["types"]) >= 2 and rng.random() < 0.4:
-            a, b = m["types"][0], m["types"][1]
-            a["comps"].append(("type", b["name"], "fwd"))
-            b["comps"].append(("class", a["name"], "back"))
+            a, b = m["types"][-2], m["types"][-1]
+            a["comps"].append(("type", b["name"], "fwd", False))
+            b["comps"].append(("class", a["name"], "back", False))
         # procedures
         for _ in range(rng.choice([0, 1, 2, 3, 4])):
-            p = dict(name=f"p{pcount}", func=rng.random() < 0.3, calls=[], internals=[], this=None, uses=[],
-                     meta=meta_lines(rng, k["p_meta"]), obj_calls=[])
-            pcount += 1
+            p = dict(name=f"p{cnt['p']}", func=rng.random() < 0.3, calls=[], internals=[], this=None, uses=[],
+                     meta=meta_lines(rng, k["p_meta"]), obj_calls=[],
+                     public=(not m["private"]) or rng.random() < 0.5)
+            cnt["p"] += 1
             if rng.random() < 0.12:
                 p["meta"].append("proc_internals: " + rng.choice(["true", "false"]))
             m["procs"].append(p)
-            allprocs.append((p["name"], i))
+            allprocs.append((p["name"], i, p["public"]))
         if m["private"]:
-            m["public"] = [p["name"] for p in m["procs"] if rng.random() < 0.5] + \
-                          [t["name"] for t in m["types"] if rng.random() < 0.7]
+            m["public"] = [p["name"] for p in m["procs"] if p["public"]] + \
+                          [t["name"] for t in m["types"] if t["public"]]
         mods.append(m)
+    extended = {t["extends"] for m in mods for t in m["types"] if t["extends"]}
     # calls
     for i, m in enumerate(mods):
-        visible_mods = {i} | {j for (a, j) in muse if a == i}
-        cands = [n for n, mi in allprocs if mi in visible_mods]
+        cands = [n for n, mi, pub in allprocs if mi == i or (mi in direct[i] and (pub or not strict))]
+        far = [n for n, mi, pub in allprocs if mi != i and mi not in closure[i]]
         style = rng.choice(["sparse", "dense", "cycle", "none"])
         for p in m["procs"]:
             if style == "none":
@@ -112,7 +165,10 @@ def gen(rng, knobs=None):
             if rng.random() < 0.15:
                 p["calls"].append(rng.choice(["ext_proc", "ext_other"]))
             if rng.random() < 0.1:
-                p["calls"].append(f"p{rng.randrange(max(1, pcount))}")   # maybe not accessible -> unresolved
+                if not strict:
+                    p["calls"].append(f"p{rng.randrange(max(1, cnt['p']))}")   # maybe not accessible
+                elif far:
+                    p["calls"].append(rng.choice(far))        # a name of a module that is not used: external
         if style == "cycle" and len(m["procs"]) >= 2:
             ps = m["procs"]
             for a, b in zip(ps, ps[1:] + ps[:1]):
@@ -131,14 +187,17 @@ def gen(rng, knobs=None):
                 p["uses"].append(rng.choice(m["uses"]))
             if rng.random() < 0.1:
                 p["uses"].append("extlib")
-        # type-bound procedures and generics
+        # type-bound procedures and generics (strict: not on types that are extended, so that no
+        # bindings are inherited)
         for t in m["types"]:
+            if strict and t["name"] in extended:
+                continue
             free = [p for p in m["procs"] if p["this"] is None and not p["func"]]
             rng.shuffle(free)
             for b, p in enumerate(free[:rng.choice([0, 0, 1, 2, 3])]):
                 p["this"] = t["name"]
                 t["bound"].append((f"{t['name']}_b{b}", p["name"]))
-            if rng.random() < 0.15:
+            if not strict and rng.random() < 0.15:
                 t["deferred"] = [(f"{t['name']}_d", f"absif{i}")]
                 m["absif"] = (f"absif{i}", t["name"])
             if len(t["bound"]) >= 2 and rng.random() < 0.6:
@@ -187,7 +246,7 @@ def gen(rng, knobs=None):
     # programs, external procedures, block data
     for q in range(rng.choice([0, 1, 1, 2])):
         uses = sorted({f"m{rng.randrange(nm)}" for _ in range(rng.choice([0, 1, 2]))})
-        acc = [n for n, mi in allprocs if f"m{mi}" in uses]
+        acc = [n for n, mi, pub in allprocs if f"m{mi}" in uses and (pub or not strict)]
         pr = dict(kind="program", name=f"prog{q}", uses=uses, calls=[c for c in acc if rng.random() < 0.5],
                   internals=[], meta=meta_lines(rng, k["p_meta"]), ext_uses=[])
         if rng.random() < 0.2:
@@ -202,13 +261,18 @@ def gen(rng, knobs=None):
         units.append(pr)
     for q in range(rng.choice([0, 0, 1, 2])):
         uses = sorted({f"m{rng.randrange(nm)}" for _ in range(rng.choice([0, 1]))})
-        acc = [n for n, mi in allprocs if f"m{mi}" in uses]
+        acc = [n for n, mi, pub in allprocs if f"m{mi}" in uses and (pub or not strict)]
         xp = dict(kind="extproc", name=f"xp{q}", uses=uses, calls=[c for c in acc if rng.random() < 0.5],
-                  meta=meta_lines(rng, k["p_meta"]))
+                  meta=meta_lines(rng, k["p_meta"]), internals=[])
         if q > 0 and rng.random() < 0.5:
             xp["calls"].append("xp0")
         if rng.random() < 0.3:
             xp["calls"].append(xp["name"])
+        if rng.random() < 0.3:
+            ip = dict(name=f"xp{q}_in", calls=[c for c in acc if rng.random() < 0.4])
+            xp["internals"].append(ip)
+            if rng.random() < 0.7:
+                xp["calls"].append(ip["name"])
         units.append(xp)
     if rng.random() < 0.12:
         units.append(dict(kind="blockdata", name="bd0", uses=[f"m{rng.randrange(nm)}"], meta=[]))
@@ -219,7 +283,133 @@ def gen(rng, knobs=None):
     for u in units:
         files[rng.randrange(nf) if mode == "random" else hash_name(u["name"]) % nf].append(u)
     files = [f for f in files if f]
-    return dict(files=files, muse=sorted(muse), nm=nm)
+    return dict(files=files, muse=sorted(muse), nm=nm, strict=strict)
+
+
+# ------------------------------------------------------------------ the relation the source declares
+def declared(proj):
+    """For a strict project: the relation written in the generated text, independent of FORD.
+    Returns (rel, nograph): rel maps an entity key to its raw relations
+       uses / anc / comps / calls / bindings / modprocs / modimpl / deps
+    whose values are entity keys or ("str", group, name) for names that denote nothing in the project.
+    Keys: ("mod", n) modules and submodules, ("type", n), ("proc", n) subroutines, functions, internal
+    procedures and submodule implementations, ("iface", n), ("bound", n, type), ("prog", n), ("block", n),
+    ("file", basename).  Scoping rules of the generated subset: a name denotes the entity of that name in
+    the own host chain (internal procedures of the host, the host, the module's procedures / types, for a
+    submodule those of its ancestor module), else a public entity of a directly used module, else a
+    top-level external procedure, else nothing (bare name).  Composition = the components declared in the
+    type itself.  A file depends on the files defining the modules its units (and their procedures) use
+    and on the file of a submodule's parent."""
+    assert proj["strict"]
+    units = [u for f in proj["files"] for u in f]
+    mods = {u["name"]: u for u in units if u["kind"] == "module"}
+    subs = {u["name"]: u for u in units if u["kind"] == "submodule"}
+    type_home, proc_home, pub = {}, {}, set()
+    for m in mods.values():
+        for t in m["types"]:
+            type_home[t["name"]] = m["name"]
+            if t["public"]:
+                pub.add(t["name"])
+        for p in m["procs"]:
+            proc_home[p["name"]] = m["name"]
+            if p["public"]:
+                pub.add(p["name"])
+    extprocs = {u["name"] for u in units if u["kind"] == "extproc"}
+    unit_file = {}
+    for fi, f in enumerate(proj["files"]):
+        for u in f:
+            unit_file[u["name"]] = f"f{fi}.f90"
+    rel, nograph = {}, set()
+
+    def ent(key, meta=()):
+        rel[key] = dict(uses=[], anc=None, comps=[], calls=[], bindings=[], modprocs=[], modimpl=None, deps=[])
+        if "graph: false" in meta:
+            nograph.add(key)
+        return rel[key]
+
+    def mod_ref(n):
+        return ("mod", n) if n in mods or n in subs else ("str", "mod", n)
+
+    def type_ref(n, home, used):
+        if n in type_home and (type_home[n] == home or (type_home[n] in used and n in pub)):
+            return ("type", n)
+        return ("str", "type", n)
+
+    def call_ref(n, local, home, used):
+        if n in local:
+            return ("proc", n)
+        if n in proc_home and (proc_home[n] == home or (proc_home[n] in used and n in pub)):
+            return ("proc", n)
+        if n in extprocs:
+            return ("proc", n)
+        return ("str", "proc", n)
+
+    impl_of = {}
+    for s in subs.values():
+        for x in s["impl"]:
+            impl_of[x] = s["name"]
+    for m in mods.values():
+        home, used = m["name"], set(m["uses"])
+        e = ent(("mod", home), m["meta"])
+        e["uses"] = [mod_ref(x) for x in m["uses"] + m["ext_uses"]]
+        for t in m["types"]:
+            te = ent(("type", t["name"]), t["meta"])
+            if t["extends"]:
+                te["anc"] = type_ref(t["extends"], home, used)
+            for vt, proto, name, priv in t["comps"]:
+                te["comps"].append((vt, type_ref(proto, home, used) if proto else None, name))
+            for b, pn in t["bound"]:
+                ent(("bound", b, t["name"]))["bindings"] = [("proc", pn)]
+            for g, bs in t["generics"]:
+                ent(("bound", g, t["name"]))["bindings"] = [("bound", b, t["name"]) for b in bs]
+        for g, ps in m["generics"]:
+            ent(("iface", g))["modprocs"] = [("proc", pn) for pn in ps]
+        for x in m["extifs"]:
+            ent(("iface", x))
+        for x in m["mpis"]:
+            ent(("iface", x))["modimpl"] = ("proc", x) if x in impl_of else None
+        for p in m["procs"]:
+            pe = ent(("proc", p["name"]), p["meta"])
+            pused = used | set(p["uses"])
+            pe["uses"] = [mod_ref(x) for x in p["uses"]]
+            local = {p["name"]} | {ip["name"] for ip in p["internals"]}
+            pe["calls"] = [call_ref(c, local, home, pused) for c in p["calls"]] + \
+                          [("bound", b, tn) for tn, b in p["obj_calls"]]
+            for ip in p["internals"]:
+                ent(("proc", ip["name"]))["calls"] = [call_ref(c, local, home, pused) for c in ip["calls"]]
+    for s in subs.values():
+        e = ent(("mod", s["name"]), s["meta"])
+        e["uses"] = [mod_ref(x) for x in s["uses"]]
+        e["anc"] = mod_ref(s["parent"] or s["ancestor"])
+        anc = s["ancestor"]
+        used = (set(mods[anc]["uses"]) if anc in mods else set()) | set(s["uses"])
+        for x in s["impl"]:
+            ent(("proc", x))["calls"] = [call_ref(c, {x}, anc, used) for c in s["calls"]]
+    for u in units:
+        if u["kind"] in ("program", "extproc"):
+            key = ("prog" if u["kind"] == "program" else "proc", u["name"])
+            e = ent(key, u["meta"])
+            e["uses"] = [mod_ref(x) for x in u["uses"]]
+            local = {ip["name"] for ip in u["internals"]} | ({u["name"]} if u["kind"] == "extproc" else set())
+            e["calls"] = [call_ref(c, local, None, set(u["uses"])) for c in u["calls"]]
+            for ip in u["internals"]:
+                ent(("proc", ip["name"]))["calls"] = [call_ref(c, local, None, set(u["uses"])) for c in ip["calls"]]
+        elif u["kind"] == "blockdata":
+            ent(("block", u["name"]), u["meta"])["uses"] = [mod_ref(x) for x in u["uses"]]
+    # files
+    for fi, f in enumerate(proj["files"]):
+        fe = ent(("file", f"f{fi}.f90"))
+        for u in f:
+            needs = list(u.get("uses", []))
+            if u["kind"] == "module":
+                for p in u["procs"]:
+                    needs += p["uses"]
+            if u["kind"] == "submodule":
+                needs.append(u["parent"] or u["ancestor"])
+            for n in needs:
+                if n in unit_file:
+                    fe["deps"].append(("file", unit_file[n]))
+    return rel, nograph
 
 
 def hash_name(n):
@@ -274,11 +464,12 @@ def render_unit(u):
                 ext += ", abstract"
             o.append(f"  type{ext} :: {t['name']}")
             o += doc(t["meta"], "    ")
-            for vt, proto, name in t["comps"]:
+            for vt, proto, name, priv in t["comps"]:
+                pr = ", private" if priv else ""
                 if proto is None:
-                    o.append(f"    {vt} :: {name}")
+                    o.append(f"    {vt}{pr} :: {name}")
                 else:
-                    o.append(f"    {vt}({proto}), pointer :: {name}")
+                    o.append(f"    {vt}({proto}), pointer{pr} :: {name}")
             if t["bound"] or t["generics"] or t.get("deferred"):
                 o.append("  contains")
                 for b, ifc in t.get("deferred", []):
@@ -361,6 +552,7 @@ def render_unit(u):
             o.append(f"  use {x}")
         for c in u["calls"]:
             o.append(f"  call {c}()")
+        o += render_internal(u.get("internals", []), "")
         o.append(f"end subroutine {u['name']}")
     elif kind == "blockdata":
         o.append(f"block data {u['name']}")
@@ -391,7 +583,7 @@ def intended(proj):
                 for t in u["types"]:
                     if t["extends"]:
                         rel.add(("extends", t["name"], t["extends"]))
-                    for vt, proto, name in t["comps"]:
+                    for vt, proto, name, priv in t["comps"]:
                         if proto is not None:
                             rel.add(("comp", t["name"], proto))
             elif u["kind"] == "submodule":
